@@ -181,8 +181,8 @@ Definition op_table : list oprow := [
   R TSub URecv FRunning APop WSessionsExit;        R TSub URecvMulti FRunning APop WSessionsExit;
   (* REQ  req_socket.rs:109 send (no peer: load_balancer.wait_for_connection :145), :265 send_multipart,
           :185 recv (select with reply_available_notifier, woken by the Stop arm :313), :275 recv_multipart.
-          The Stop arm never calls load_balancer.deactivate(). *)
-  R TReq USend FRunning AWaitConn WNobody;         R TReq USendMulti FUnsupported ANone WStopArm;
+          The Stop arm calls load_balancer.deactivate() (since the fix: commit recorded in known_findings.json). *)
+  R TReq USend FRunning AWaitConn WStopArm;        R TReq USendMulti FUnsupported ANone WStopArm;
   R TReq URecv FRunning APop WStopArm;             R TReq URecvMulti FRunning APop WSessionsExit;
   (* REP  rep_socket.rs:130 send, :164 send_multipart, :142 recv, :228 recv_multipart; Stop arm :252 *)
   R TRep USend FRunning APipeSend WTimeout;        R TRep USendMulti FRunning APipeSend WTimeout;
@@ -228,14 +228,17 @@ Definition table_complete : bool :=
   && (length op_table =? length all_types * length all_ops)%nat.
 
 (* where the core's command loop is when a delegated command is put into the mailbox
-   (command_loop.rs: the loop `break`s as soon as it reads phase Finished, then runs the post-loop
-   section, and only the return of run_command_loop drops the MailboxReceiver; the code that would
-   drain the mailbox and answer the stragglers is commented out, command_loop.rs:326-350) *)
+   (command_loop.rs: the loop `break`s as soon as it reads phase Finished, runs the post-loop section, then
+   DRAINS the mailbox with try_recv - every drained command goes through process_socket_command, which
+   answers "shutting down" because the phase is not Running - and closes the receiver at once; the handles
+   keep the channel alive, so a command that is queued and not drained keeps its reply sender forever) *)
 Inductive loop_point :=
 | LoopServing         (* the loop will call command_receiver.recv() again: the command is answered *)
 | LoopLastRecvDone    (* the loop has received its last command (it is inside the handler that finishes the
-                         shutdown, or past the `break`); the receiver is not dropped yet *)
-| LoopDropped.        (* run_command_loop has returned: mailbox.send fails *)
+                         shutdown, or past the `break`) but the drain has not seen Empty yet: answered by the drain *)
+| LoopDrained         (* between the drain's last try_recv (Empty) and command_receiver.close(): two adjacent
+                         statements; only another thread of a multi-thread runtime can get in *)
+| LoopDropped.        (* the receiver is closed: mailbox.send fails *)
 
 Inductive outcome := ErrPrompt | OkPrompt | HangsForever.
 
@@ -246,7 +249,8 @@ Definition after_close (r : oprow) (lp : loop_point) : outcome :=
   | FMailbox =>
       match lp with
       | LoopServing => ErrPrompt        (* command_processor.rs:116-136 Err(InvalidState("Socket is shutting down")) *)
-      | LoopLastRecvDone => HangsForever   (* queued, never dequeued; its reply sender lives as long as the queue *)
+      | LoopLastRecvDone => ErrPrompt   (* drained after the loop: Err(InvalidState("Socket is shutting down")) *)
+      | LoopDrained => HangsForever     (* queued, never dequeued; its reply sender lives as long as the queue *)
       | LoopDropped => ErrPrompt        (* Err(Internal("Mailbox send error")) *)
       end
   end.
